@@ -136,8 +136,8 @@ UNIT = Unit(
                       note="sealed_ok (a state sealed with a proposer action has no pending tips) is established by seal's clause action_tips and by from_block's own clause sealed"),
                     C("sealed", "sealed_ok(res)", "C08")],
            rewrites=[("ANF", "collect", 0, 3, {})],
-           injects=[Inject("before_tail", """proof { broadcast use axiom_root_smt_inj, axiom_root_coins_inj;
-               assert forall|s: SealedState<C>| is_block_of(s, *blk) && sealed_ok(s) && *stakes == s.0.stakes implies same_views(state, #[trigger] s.0) by {
+           injects=[Inject("entry", "let ghost stakes0 = *stakes;"), Inject("before_tail", """proof { broadcast use axiom_root_smt_inj, axiom_root_coins_inj;
+               assert forall|s: SealedState<C>| is_block_of(s, *blk) && sealed_ok(s) && stakes0 == s.0.stakes implies same_views(state, #[trigger] s.0) by {
                    let m = s.0.transactions@;
                    assert forall|h: TxHash| state.transactions@.contains_key(h) <==> m.contains_key(h) by {
                        if state.transactions@.contains_key(h) { let i = choose|i: int| 0 <= i < __c1@.len() && spec_txhash(#[trigger] __c1@[i]) == h;
